@@ -54,10 +54,12 @@ var hostName = map[string]string{
 	"h3":  "registry-three.test",
 	"xh1": "evil-registry-one.test",
 	"h1x": "registry-one.test.evil.test",
+	"h1p": "registry-one.test:8443",
+	"h2n": "registry-two.test",
 }
 var symText = map[string]string{"t": "tA", "u": "uB", "@": "@", ",": ",", ":": ":", "h1": hostName["h1"], "h2": hostName["h2"]}
 var pwText = map[string]string{"n1": "netrc-pw-one", "n2": "netrc-pw-two", "nd": "netrc-pw-default", "": ""}
-var reqHosts = []string{"h1", "h2", "h3", "xh1", "h1x"}
+var reqHosts = []string{"h1", "h2", "h3", "xh1", "h1x", "h1p", "h2n"}
 
 func render(syms []string) string {
 	var sb strings.Builder
@@ -127,8 +129,8 @@ func writeNetrc(path string, n netrcRec) error {
 
 func perms(rot int) []string {
 	all := [][]string{
-		{"h1", "h2", "h3", "xh1", "h1x"}, {"h3", "h1", "xh1", "h2", "h1x"}, {"xh1", "h1x", "h3", "h2", "h1"},
-		{"h2", "h3", "h1", "h1x", "xh1"}, {"h1x", "h3", "h2", "xh1", "h1"}, {"h3", "h2", "h1", "xh1", "h1x"},
+		{"h1", "h2", "h3", "xh1", "h1x", "h1p", "h2n"}, {"h1p", "h3", "h1", "xh1", "h2n", "h2", "h1x"}, {"xh1", "h1x", "h2n", "h3", "h2", "h1p", "h1"},
+		{"h2", "h2n", "h3", "h1", "h1p", "h1x", "xh1"}, {"h1x", "h3", "h1p", "h2", "xh1", "h1", "h2n"}, {"h3", "h2n", "h2", "h1p", "h1", "xh1", "h1x"},
 	}
 	return all[rot%len(all)]
 }
